@@ -153,7 +153,7 @@ func (d *Discharger) run(obls []*Obligation) {
 func (d *Discharger) discharge(i int, o *Obligation) {
 	var gv []string
 	if !o.Cover && o.Replay != nil {
-		gv = o.Replay.getValues()
+		gv = o.Replay.getValuesAt(o.Prefix)
 	}
 	file := filepath.Join(d.dir, fmt.Sprintf("q%05d.smt2", i))
 	os.WriteFile(file, []byte(o.script(gv)), 0o644)
@@ -179,6 +179,23 @@ func (d *Discharger) discharge(i int, o *Obligation) {
 	case r.status == "sat":
 		o.Status = "refuted"
 		o.Model = r.out
+		// try for a model that is easier to replay (short slices and streams)
+		if hints := o.Replay.smallModelHints(); len(hints) > 0 {
+			sc := o.script(gv)
+			k := strings.LastIndex(sc, "(check-sat)")
+			var sb strings.Builder
+			sb.WriteString(sc[:k])
+			for _, h := range hints {
+				sb.WriteString("(assert " + h + ")\n")
+			}
+			sb.WriteString(sc[k:])
+			f2 := file + ".small.smt2"
+			os.WriteFile(f2, []byte(sb.String()), 0o644)
+			if r2 := race(f2, 5, d.seed, solvers[:2]); r2.status == "sat" {
+				o.Output, o.Model = r2.out, r2.out
+			}
+			os.Remove(f2)
+		}
 	default:
 		o.Status = "undischarged"
 	}
